@@ -52,16 +52,23 @@ func trackWitness(t trackSpec) string {
 	for i, s := range t.samples {
 		ss[i] = fmt.Sprintf("%d:%d:%d:%d", s.dur, s.cto, b2i(s.sync), s.size)
 	}
-	return fmt.Sprintf("%s,%d,%d,%d,%d,%s,%s", kind, t.timescale, b2i(t.hasStss), b2i(t.hasCtts), b2i(t.co64),
+	w := fmt.Sprintf("%s,%d,%d,%d,%d,%s,%s", kind, t.timescale, b2i(t.hasStss), b2i(t.hasCtts), b2i(t.co64),
 		strings.Join(spc, "."), strings.Join(ss, "/"))
+	if len(t.sdtp) > 0 {
+		w += "," + hx.Hex(t.sdtp)
+	}
+	return w
 }
 
 func parseTrackWitness(s string) (trackSpec, error) {
 	f := strings.Split(s, ",")
-	if len(f) != 7 {
+	if len(f) != 7 && len(f) != 8 {
 		return trackSpec{}, fmt.Errorf("bad track %q", s)
 	}
 	var t trackSpec
+	if len(f) == 8 {
+		t.sdtp = hx.UnHex(f[7])
+	}
 	t.video = f[0] == "v"
 	ts, _ := strconv.ParseUint(f[1], 10, 32)
 	t.timescale = uint32(ts)
@@ -166,6 +173,16 @@ func genVideo(r *hx.Rng, zeroDur bool) trackSpec {
 	}
 	t.spc = genSpc(r)
 	t.co64 = r.Intn(6) == 0
+	if r.Intn(4) == 0 { // sdtp: dependency flags per sample
+		t.sdtp = make([]byte, len(t.samples))
+		for i, s := range t.samples {
+			if s.sync {
+				t.sdtp[i] = byte(r.Pick(0x20, 0x20, 0x24, 0x00))
+			} else {
+				t.sdtp[i] = byte(r.Pick(0x10, 0x18, 0x14, 0x58, 0x11, 0x00))
+			}
+		}
+	}
 	return t
 }
 
